@@ -66,10 +66,10 @@ type LetDef struct {
 
 type ContractFile struct {
 	Globals map[string]*LetDef
-	Funcs map[string]*FuncContract
-	Order []string
-	Files []string
-	Lines int
+	Funcs   map[string]*FuncContract
+	Order   []string
+	Files   []string
+	Lines   int
 }
 
 var funcHdr = regexp.MustCompile(`^func\s+((?:\(\*?[A-Za-z0-9_]+\)\.)?[A-Za-z0-9_]+)\s*\(([^)]*)\)\s*(?:\(([^)]*)\))?\s*$`)
